@@ -7,7 +7,7 @@ from typing import Dict, List, Optional, Set, Tuple
 
 from .. import pat, q
 from ..boolterm import Converter, Undecided, atom, equivalent, head_name, mk, show
-from ..core import AnchorError, ClassInfo, Ctx, FuncInfo, dotted, guard_facts, norm, returns_or_raises_everywhere, walk_no_nested
+from ..core import order_key, AnchorError, ClassInfo, Ctx, FuncInfo, dotted, guard_facts, norm, returns_or_raises_everywhere, walk_no_nested
 from . import c09
 
 ID = "C01"
@@ -635,7 +635,7 @@ def check_bitwise_cmp(ctx: Ctx, mi: FuncInfo, name: str):
             per = isinstance(term, ast.Call) and isinstance(term.func, ast.Name) and term.func.id == want[1] and sorted(norm(a) for a in term.args) == sorted(comps)
             ctx.check(op == want[0] and per, "DP-OPS", mi, role, norm(loops[0].body[0]), f"`{norm(loops[0].body[0])}` does not combine per-bit {want[1]}({comps[0]}, {comps[1]}) with {want[0]}", loops[0])
             unit = {"And": ("true", "True"), "Or": ("false", "False")}[want[0]]
-            init = [n for n in walk_no_nested(mi.node) if isinstance(n, ast.Assign) and isinstance(n.targets[0], ast.Name) and n.targets[0].id == acc and getattr(n, "lineno", 0) < loops[0].lineno]
+            init = [n for n in walk_no_nested(mi.node) if isinstance(n, ast.Assign) and isinstance(n.targets[0], ast.Name) and n.targets[0].id == acc and order_key(n) < order_key(loops[0])]
             if len(init) == 1:
                 ctx.check(norm(init[0].value) in unit, "SB-FOLDID", mi, f"{name}: the fold starts from the identity of {want[0]}", norm(init[0]), f"`{norm(init[0])}` is not the identity of {want[0]}: the result is constant", init[0])
             else:
